@@ -4,7 +4,7 @@
     mutex (lock obligations coq/obligations/ObC17.v, regenerated from the source), so every
     schedule of concurrent goroutines is an operation list.  Well-formedness is what
     database/sql guarantees: a connection is used between its open and its single close. *)
-From updog Require Import Prelude DriverSM DriverProofs Dsn DsnProofs.
+From updog Require Import Prelude DriverSM DriverProofs Dsn DsnProofs Utf8Proofs.
 
 Theorem C17_no_panic_no_hang valid ops :
   wf_ops valid [] [] ops = true →
@@ -46,6 +46,14 @@ Theorem C17_key_determines_options n1 n2 p1 c1 k1 p2 c2 k2 :
   parse_dsn n1 = DsnFile p1 c1 k1 → parse_dsn n2 = DsnFile p2 c2 k2 → (p1, k1) = (p2, k2) → c1 = c2.
 Proof. exact (parse_dsn_key_determines_cfg n1 n2 p1 c1 k1 p2 c2 k2). Qed.
 
+(** The cache size of a data source name: exactly the decimal numbers below 2^64 are accepted
+    ([decimal n]: the usual digits of n), and they denote themselves. *)
+Theorem C17_cache_size_accepted n : (n < 2 ^ 64)%N → parse_uint64 (decimal n) = Some n.
+Proof. exact (parse_uint64_decimal n). Qed.
+Theorem C17_cache_size_overflow n : (2 ^ 64 ≤ n)%N → parse_uint64 (decimal n) = None.
+Proof. exact (parse_uint64_overflow n). Qed.
+
+Print Assumptions C17_cache_size_accepted.
 Print Assumptions C17_key_determines_options.
 Print Assumptions C17_no_panic_no_hang.
 Print Assumptions C17_queries_correct.
